@@ -445,51 +445,140 @@ theorem u64or_zero_right (a : Nat) : u64or a 0 = a := by
 theorem u64or_zero_left (a : Nat) : u64or 0 a = a := by
   unfold u64or; exact Nat.zero_or a
 
+/-! ### the repaired limb code of `ringqp.Ring.ExtendBasisSmallNormAndCenter` (C03-9): `|coeff| mod p`, `−0 = 0` -/
+
+theorem u64neg_zero : u64neg 0 = 0 := by decide
+theorem u64neg_pos (a : Nat) (h0 : 0 < a) (hW : a < W) : u64neg a = W - a := by
+  unfold u64neg
+  rw [Nat.mod_eq_of_lt hW, Nat.mod_eq_of_lt (by omega)]
+
+/-- `(c | -c) >> 63` is the "non-zero" bit of a uint64 -/
+theorem nonzero_bit (a : Nat) (hW : a < W) : u64shr (u64or a (u64neg a)) 63 = if a = 0 then 0 else 1 := by
+  by_cases h : a = 0
+  · subst h; rw [if_pos rfl, u64neg_zero]; decide
+  · rw [if_neg h, u64neg_pos a (Nat.pos_of_ne_zero h) hW]
+    unfold u64shr u64or
+    have h1 : a ≤ a ||| (W - a) := Nat.left_le_or
+    have h2 : W - a ≤ a ||| (W - a) := Nat.right_le_or
+    have h3 : a ||| (W - a) < 2 ^ 64 := Nat.or_lt_two_pow (by unfold W at hW; omega) (by unfold W; omega)
+    generalize a ||| (W - a) = x at *
+    unfold W at *
+    omega
+
 theorem extendSmallLimb_nonneg (q0 p c : Nat) (hc : c ≤ q0 / 2) (hcW : c < W) :
-    extendSmallLimb q0 p c = c := by
+    extendSmallLimb q0 p c = c % p := by
   have hneg : ¬ (q0 / 2 < c) := Nat.not_lt.mpr hc
   simp only [extendSmallLimb, u64shr, Nat.pow_one, hneg, decide_false, Bool.false_eq_true, if_false,
     u64xor_one_one]
   rw [u64mul_zero_right, u64mul_one_right, u64or_zero_right]
+  exact Nat.mod_eq_of_lt (Nat.lt_of_le_of_lt (Nat.mod_le c p) hcW)
+
+theorem extendSmallLimb_neg (q0 p c : Nat) (hc : q0 / 2 < c) (hcq : c < q0) (hq : q0 < W) (hp0 : 0 < p)
+    (hp : p < W) :
+    extendSmallLimb q0 p c = if (q0 - c) % p = 0 then 0 else p - (q0 - c) % p := by
+  have hsub : u64sub q0 c = q0 - c := by
+    unfold u64sub; unfold W at *; omega
+  have hcc : (q0 - c) % p < p := Nat.mod_lt _ hp0
+  have hsub2 : u64sub p ((q0 - c) % p) = p - (q0 - c) % p := by
+    unfold u64sub; unfold W at *; omega
+  have hbit := nonzero_bit ((q0 - c) % p) (by omega)
+  simp only [extendSmallLimb, hsub]
+  rw [show u64shr q0 1 = q0 / 2 from by unfold u64shr; rw [Nat.pow_one]] at *
+  simp only [hc, decide_true, if_true, hsub2, hbit, u64xor_zero_one]
+  rw [u64mul_zero_right, u64mul_one_right, u64or_zero_left]
+  by_cases h0 : (q0 - c) % p = 0
+  · rw [if_pos h0, if_pos h0, u64mul_zero_right]; rfl
+  · rw [if_neg h0, if_neg h0, u64mul_one_right, Nat.mod_mod]
+    apply Nat.mod_eq_of_lt
+    unfold W at *; omega
+
+/-- **the small-norm extension writes the centred value modulo `p`, for EVERY residue `c < q0`** (no size
+    condition between the value and `p` any more). -/
+theorem extendSmall_spec (q0 p c : Nat) (hcq : c < q0) (hq : q0 < W) (hp0 : 0 < p) (hp : p < W) :
+    ((extendSmallLimb q0 p c : Nat) : Int) % p = centerInt q0 c % p := by
+  unfold centerInt
+  by_cases hc : q0 / 2 < c
+  · rw [extendSmallLimb_neg q0 p c hc hcq hq hp0 hp, if_pos hc]
+    have hdm := Nat.div_add_mod (q0 - c) p
+    have hlt : (q0 - c) % p < p := Nat.mod_lt _ hp0
+    have hcast : ((c : Int) - q0) = -((q0 - c : Nat) : Int) := by
+      rw [Nat.cast_sub (Nat.le_of_lt hcq)]; ring
+    by_cases h0 : (q0 - c) % p = 0
+    · rw [if_pos h0, hcast]
+      have hd : (p : Int) ∣ ((q0 - c : Nat) : Int) := by
+        exact_mod_cast Nat.dvd_of_mod_eq_zero h0
+      rw [Int.emod_eq_zero_of_dvd ((Int.dvd_neg).mpr hd)]
+      rfl
+    · rw [if_neg h0, hcast]
+      have e : ((q0 - c : Nat) : Int) = p * ((q0 - c) / p : Nat) + ((q0 - c) % p : Nat) := by
+        exact_mod_cast hdm.symm
+      rw [Nat.cast_sub (Nat.le_of_lt hlt), e]
+      have : -((p : Int) * ((q0 - c) / p : Nat) + ((q0 - c) % p : Nat))
+          = ((p : Int) - ((q0 - c) % p : Nat)) + p * (-((q0 - c) / p : Nat) - 1) := by ring
+      rw [this, Int.add_mul_emod_self_left]
+  · rw [extendSmallLimb_nonneg q0 p c (Nat.not_lt.mp hc) (Nat.lt_trans hcq hq), if_neg hc]
+    push_cast
+    exact Int.emod_emod_of_dvd _ (dvd_refl _)
+
+-- test
+example : extendSmallLimb 97 17 3 = 3 ∧ centerInt 97 3 = 3 := by decide
+example : extendSmallLimb 97 17 90 = 10 ∧ centerInt 97 90 = -7 ∧ ((10 : Int) % 17 = (-7) % 17) := by decide
+example : extendSmallLimb 97 17 (97 - 34) = 0 := by decide   -- −34 ≡ −0 = 0 (mod 17)
+
+/-- the former witness of the wrap (`q0 = 97, p = 17, c = 60`, centred value `−37`): the repaired code writes
+    `14 ≡ −37 (mod 17)`. -/
+theorem extendSmall_large_repaired :
+    extendSmallLimb 97 17 60 = 14 ∧
+    ((extendSmallLimb 97 17 60 : Nat) : Int) % (17 : Nat) = centerInt 97 60 % (17 : Nat) := by
+  decide
+
+/-! ### the unrepaired limb code (`rlwe.ExtendBasisSmallNormAndCenterNTTMontgomery`) -/
+
+theorem extendSmallLimbWrap_nonneg (q0 p c : Nat) (hc : c ≤ q0 / 2) (hcW : c < W) :
+    extendSmallLimbWrap q0 p c = c := by
+  have hneg : ¬ (q0 / 2 < c) := Nat.not_lt.mpr hc
+  simp only [extendSmallLimbWrap, u64shr, Nat.pow_one, hneg, decide_false, Bool.false_eq_true, if_false,
+    u64xor_one_one]
+  rw [u64mul_zero_right, u64mul_one_right, u64or_zero_right]
   exact Nat.mod_eq_of_lt hcW
 
-theorem extendSmallLimb_neg (q0 p c : Nat) (hc : q0 / 2 < c) (hcq : c < q0) (hq : q0 < W) (hp : p < W)
-    (hfit : q0 - c ≤ p) : extendSmallLimb q0 p c = p - (q0 - c) := by
+theorem extendSmallLimbWrap_neg (q0 p c : Nat) (hc : q0 / 2 < c) (hcq : c < q0) (hq : q0 < W) (hp : p < W)
+    (hfit : q0 - c ≤ p) : extendSmallLimbWrap q0 p c = p - (q0 - c) := by
   have hcW : c < W := Nat.lt_trans hcq hq
   have hsub : u64sub q0 c = q0 - c := by
     unfold u64sub; unfold W at *; omega
   have hsub2 : u64sub p (q0 - c) = p - (q0 - c) := by
     unfold u64sub; unfold W at *; omega
-  simp only [extendSmallLimb, u64shr, Nat.pow_one, hc, decide_true, if_true, u64xor_zero_one, hsub, hsub2]
+  simp only [extendSmallLimbWrap, u64shr, Nat.pow_one, hc, decide_true, if_true, u64xor_zero_one, hsub, hsub2]
   rw [u64mul_zero_right, u64mul_one_right, u64or_zero_left]
   apply Nat.mod_eq_of_lt
   unfold W at *; omega
 
-/-- the small-norm extension writes the centred value modulo `p`, PROVIDED `q0 − c ≤ p` for the
+/-- `rlwe.ExtendBasisSmallNormAndCenterNTTMontgomery` (old limb code, still in core/rlwe/utils.go) writes the centred value modulo `p`, PROVIDED `q0 − c ≤ p` for the
     negative residues (`|centred value| ≤ p`) -/
-theorem extendSmall_spec (q0 p c : Nat) (hcq : c < q0) (hq : q0 < W) (hp : p < W)
+theorem extendSmallWrap_spec (q0 p c : Nat) (hcq : c < q0) (hq : q0 < W) (hp : p < W)
     (hfit : q0 / 2 < c → q0 - c ≤ p) :
-    ((extendSmallLimb q0 p c : Nat) : Int) % p = centerInt q0 c % p := by
+    ((extendSmallLimbWrap q0 p c : Nat) : Int) % p = centerInt q0 c % p := by
   unfold centerInt
   by_cases hc : q0 / 2 < c
-  · rw [extendSmallLimb_neg q0 p c hc hcq hq hp (hfit hc), if_pos hc]
+  · rw [extendSmallLimbWrap_neg q0 p c hc hcq hq hp (hfit hc), if_pos hc]
     have h1 : q0 - c ≤ p := hfit hc
     have h2 : c ≤ q0 := Nat.le_of_lt hcq
     push_cast [Nat.cast_sub h1, Nat.cast_sub h2]
     have : (p : Int) - ((q0 : Int) - c) = (c - q0) + p := by ring
     rw [this, Int.add_emod_right]
-  · rw [extendSmallLimb_nonneg q0 p c (Nat.not_lt.mp hc) (Nat.lt_trans hcq hq), if_neg hc]
+  · rw [extendSmallLimbWrap_nonneg q0 p c (Nat.not_lt.mp hc) (Nat.lt_trans hcq hq), if_neg hc]
 
 -- test
-example : extendSmallLimb 97 17 3 = 3 ∧ centerInt 97 3 = 3 := by decide
-example : extendSmallLimb 97 17 90 = 10 ∧ centerInt 97 90 = -7 ∧ ((10 : Int) % 17 = (-7) % 17) := by decide
+example : extendSmallLimbWrap 97 17 3 = 3 ∧ centerInt 97 3 = 3 := by decide
+example : extendSmallLimbWrap 97 17 90 = 10 ∧ centerInt 97 90 = -7 ∧ ((10 : Int) % 17 = (-7) % 17) := by decide
 
 /-- when `q0 − c > p` the uint64 subtraction `p − (q0 − c)` WRAPS and the result is not the centred
     value modulo `p`: `q0 = 97, p = 17, c = 60`: centred value `−37 ≡ 14`, the code writes
     `2^64 − 20 ≡ 15 (mod 17)`. -/
-theorem extendSmall_wraps :
-    extendSmallLimb 97 17 60 = W - 20 ∧
-    ((extendSmallLimb 97 17 60 : Nat) : Int) % (17 : Nat) ≠ centerInt 97 60 % (17 : Nat) := by
+theorem extendSmallWrap_wraps :
+    extendSmallLimbWrap 97 17 60 = W - 20 ∧
+    ((extendSmallLimbWrap 97 17 60 : Nat) : Int) % (17 : Nat) ≠ centerInt 97 60 % (17 : Nat) := by
   decide
 
 end Lattigo.BasisExt
@@ -509,4 +598,6 @@ end Lattigo.BasisExt
 #print axioms Lattigo.BasisExt.extendSmallLimb_nonneg
 #print axioms Lattigo.BasisExt.extendSmallLimb_neg
 #print axioms Lattigo.BasisExt.extendSmall_spec
-#print axioms Lattigo.BasisExt.extendSmall_wraps
+#print axioms Lattigo.BasisExt.extendSmall_large_repaired
+#print axioms Lattigo.BasisExt.extendSmallWrap_spec
+#print axioms Lattigo.BasisExt.extendSmallWrap_wraps
